@@ -79,6 +79,23 @@ def tie_world(rng):
         if old in world["hits"]:
             world["hits"] = {(clean if name == old else name): hs for name, hs in world["hits"].items()}
     case = {"kind": "world", "world": world, "perm_seed": rng.randrange(1 << 30)}
+    if variant % 2 == 0 and not world["circular"]:
+        # three genes beyond the reach of every rule, hit by a profile no rule asks for: their hits are reported only
+        # through the earlier subregion below
+        from vf.models import rules_ref as R
+        used = set()
+        for rule in world["rules"]:
+            used |= R.profiles(rule["ast"])
+            if rule.get("extenders"):
+                used |= R.profiles(rule["extenders"])
+            rule["nb_kb"] = min(rule["nb_kb"], 2)
+        spare = sorted(set(W.PROFILES) - used)
+        if spare:
+            begin = world["L"] + 3000
+            for k in range(3):
+                world["genes"][f"t{k}"] = {"loc": {"parts": [[begin + 400 * k, begin + 400 * k + 200]], "strand": rng.choice([1, -1])}}
+                world["hits"][f"t{k}"] = {spare[0]: rng.choice([20, 30, 50])}
+            world["L"] = begin + 1500
     if variant % 2 == 0:
         # a subregion that is in the record before rule detection runs (as CASSIS or a sideloaded area is): the hits of
         # its genes are reported even where no protocluster forms
